@@ -192,6 +192,20 @@ fn multi_record_dbs() -> Vec<Db> {
     }
     // two products
     out.push(Db::new("2rec two products".into(), vec![Rec::base(), Rec { product: "a_b".into(), version: "9.9".into(), build: "9".into(), ..Rec::base() }]));
+    // four records — three builds of one product and one of another — in every file order
+    let four = [("wow", "1.0.2020", "2020", "2020-06-01T00:00:00+00:00"), ("wow", "1.0.2021", "2021", "2021-06-01T00:00:00+00:00"), ("wow", "1.0.2023", "2023", "2023-06-01T00:00:00+00:00"), ("a_b", "1.0.2022", "2022", "2022-06-01T00:00:00+00:00")];
+    let mut perm = [0usize, 1, 2, 3];
+    loop {
+        let recs: Vec<Rec> = perm.iter().map(|&i| Rec { product: four[i].0.into(), version: four[i].1.into(), build: four[i].2.into(), build_time: four[i].3.into(), ..Rec::base() }).collect();
+        let mut db = Db::new("4rec three builds of one product and one of another, every file order".to_string(), recs);
+        db.note = format!("file order {perm:?} of [wow 2020, wow 2021, wow 2023, a_b 2022]");
+        out.push(db);
+        // next permutation (lexicographic)
+        let Some(i) = (0..3).rev().find(|&i| perm[i] < perm[i + 1]) else { break };
+        let j = (i + 1..4).rev().find(|&j| perm[j] > perm[i]).unwrap_or(i + 1);
+        perm.swap(i, j);
+        perm[i + 1..].reverse();
+    }
     // three records, newest in the middle
     out.push(Db::new(
         "3rec newest in the middle".into(),
@@ -283,6 +297,9 @@ fn date_dbs(tier: Tier) -> Vec<Db> {
     out
 }
 
+/// The configured CDN hosts: several, space-separated, as the option is documented.
+const CDN_HOSTS: &str = "cdn.test.example level3.test.example cdn2.test.example";
+
 fn load_state(db: &Db) -> Option<(Arc<AppState>, Scratch)> {
     let sc = Scratch::new("c15");
     let path = sc.path.join("builds.json");
@@ -292,7 +309,7 @@ fn load_state(db: &Db) -> Option<(Arc<AppState>, Scratch)> {
         http_bind: "127.0.0.1:0".parse().ok()?,
         tcp_bind: "127.0.0.1:0".parse().ok()?,
         builds: path,
-        cdn_hosts: "cdn.test.example".to_string(),
+        cdn_hosts: CDN_HOSTS.to_string(),
         cdn_path: "tpr/default".to_string(),
         tls_cert: None,
         tls_key: None,
@@ -347,7 +364,7 @@ fn judge(doc: &BpsvDocument, endpoint: &str, cands: &[&Rec]) -> Result<(), (Stri
             ],
             _ => vec![
                 ("Path", rec.cdn_path.clone().unwrap_or_else(|| "tpr/default".to_string())),
-                ("Hosts", "cdn.test.example".to_string()),
+                ("Hosts", CDN_HOSTS.to_string()),
                 ("ConfigPath", rec.cdn_path.clone().unwrap_or_else(|| "tpr/default".to_string())),
             ],
         };
